@@ -363,6 +363,16 @@ def f_xrel():
             yield D([[M("M0"), M("M1")], [T("T0", [If([call("M0")], a1, has_else=True)])],
                      [T("T1", [If(a1, [call("M1")], has_else=True)])]], rel)
             yield D([[M("M0"), M("M1")], [t0], [t1]], rel)
+            # related bodies in different alternatives of ONE structure of one module (the relation is exempt from conflict
+            # because the alternatives exclude each other -- they must really do so): If/Elif/Else chains, Switch, FSM
+            yield D([[M("M0"), M("M1"), If([t0], [t1])]], rel)
+            yield D([[M("M0"), M("M1"), If(a1, [t0], [t1], has_else=True)]], rel)
+            yield D([[M("M0"), M("M1"), If([t0], a1, [t1])]], rel)
+            yield D([[M("M0"), M("M1"), If([t0], [t1], has_else=True)]], rel)
+            yield D([[M("M0"), M("M1"), Sw(2, [(0, [t0]), (1, a1)], default=[t1])]], rel)
+            yield D([[M("M0"), M("M1"), Fsm(([t0], 1, "in"), ([t1], 0, "in"))]], rel)
+            if on == "m":
+                yield D([[M("M0"), M("M1"), T("T0", [If([call("M0")], [call("M1")])])]], rel)
 
 
 def f_consten():
